@@ -1051,3 +1051,129 @@ Proof.
   - cbn [wstep sstep fst snd]. split; [apply Hm, H|]. eapply RibOK_ext; [exact HRib|reflexivity].
   - cbn [wstep sstep fst snd]. split; [apply Hm, H|]. eapply RibOK_ext; [exact HRib|reflexivity].
 Qed.
+
+(* ================================================================== *)
+(* 7. all histories                                                    *)
+(* ================================================================== *)
+
+Definition disciplined (ops : list wop) : bool := forallb op_ok ops.
+
+Lemma world_init_eq : world_init = MkWorld (MkReg 2 ∅) 1 ∅ rib_empty ∅ ∅ [].
+Proof. reflexivity. Qed.
+
+Lemma inv_init : CtlOK 2 world_init sworld_init /\ RibOK (w_ids world_init) (s_rib sworld_init) (fun _ => None).
+Proof.
+  rewrite world_init_eq. unfold sworld_init. split; split; wproj; cbn [serial infos].
+  - split; cbn [serial infos]; try (intros *; rewrite lookup_empty; discriminate); [lia|apply lookup_empty].
+  - lia.
+  - intros k _. apply lookup_empty.
+  - intros k rid s Hk. rewrite lookup_empty in Hk. discriminate.
+  - intros k rid s Hk. rewrite lookup_empty in Hk. discriminate.
+  - intros k rid s p i Hk. rewrite lookup_empty in Hk. discriminate.
+  - intros x i Hx. discriminate.
+  - intros b id c Hb. rewrite lookup_empty in Hb. discriminate.
+  - intros b. rewrite !lookup_empty. reflexivity.
+  - reflexivity.
+  - intros x i f p _ Hx. discriminate.
+  - intros x f p _. apply lookup_empty.
+  - intros f p i Hn. congruence.
+Qed.
+
+Lemma evs_of_app us vs : evs_of (us ++ vs) = evs_of us ++ evs_of vs.
+Proof. unfold evs_of. rewrite map_app, concat_app. reflexivity. Qed.
+
+Lemma spec_lookup_snoc ops o key :
+  spec_lookup (evs_of (world_updates (ops ++ [o]))) key =
+  Lstep (spec_lookup (evs_of (world_updates ops))) (step_evs (wstep (run_world ops).1 o).2) key.
+Proof. rewrite world_updates_snoc, evs_of_app. unfold spec_lookup, Lstep. apply fold_left_app. Qed.
+
+(* the simulation invariant holds after every disciplined history short of the u32 wrap *)
+Theorem run_inv ops :
+  disciplined ops = true -> N.of_nat (length ops) < two32 - 2 ->
+  CtlOK (2 + N.of_nat (length ops)) (run_world ops).1 (run_sworld ops).1 /\
+  RibOK (w_ids (run_world ops).1) (s_rib (run_sworld ops).1) (spec_lookup (evs_of (world_updates ops))).
+Proof.
+  pose proof two32_val as H32. induction ops as [|o ops IH] using rev_ind; intros Hd Hlen.
+  - destruct inv_init as [A B]. split; [exact A|]. eapply RibOK_ext; [exact B|reflexivity].
+  - unfold disciplined in *. rewrite forallb_app in Hd. apply andb_true_iff in Hd as [Hd Ho].
+    cbn [forallb] in Ho. rewrite andb_true_r in Ho.
+    rewrite app_length in *. cbn [length] in *. rewrite Nat.add_1_r, Nat2N.inj_succ in *.
+    destruct IH as [A B]; [exact Hd|lia|].
+    rewrite run_world_snoc, run_sworld_snoc. cbn [fst snd].
+    destruct (step_inv _ _ _ _ o A B Ho) as [A' B']; [lia|]. split.
+    + eapply CtlOK_mono; [exact A'|lia].
+    + eapply RibOK_ext; [exact B'|]. intros key. apply spec_lookup_snoc.
+Qed.
+
+(* THE REFINEMENT. For every disciplined history, every wire identity x that was given
+   ingress id i and is the only one that was, and every (family, prefix): the ideal RIB's
+   entry for x is the last-event reading of the updates the pipeline applied, at id i. *)
+Theorem pipe_refines_ideal_sole ops x i f p :
+  disciplined ops = true -> N.of_nat (length ops) < two32 - 2 -> f < 4 ->
+  id_of (w_ids (run_world ops).1) x = Some i -> sole (w_ids (run_world ops).1) x i ->
+  s_rib (run_sworld ops).1 !! (f, p, x) = spec_lookup (evs_of (world_updates ops)) (f, p, i).
+Proof. intros Hd Hlen Hf Hx Hs. destruct (run_inv ops Hd Hlen) as [_ B]. apply (rk_rib _ _ _ B); assumption. Qed.
+
+Theorem pipe_refines_ideal ops x i f p :
+  disciplined ops = true -> N.of_nat (length ops) < two32 - 2 -> f < 4 ->
+  NoShare (w_ids (run_world ops).1) ->
+  id_of (w_ids (run_world ops).1) x = Some i ->
+  s_rib (run_sworld ops).1 !! (f, p, x) = spec_lookup (evs_of (world_updates ops)) (f, p, i).
+Proof. intros Hd Hlen Hf HN Hx. apply pipe_refines_ideal_sole; try assumption. apply NoShare_sole; assumption. Qed.
+
+(* companion: a wire identity that never got an id has no entry in the ideal RIB *)
+Theorem pipe_no_id_no_entry ops x f p :
+  disciplined ops = true -> N.of_nat (length ops) < two32 - 2 ->
+  id_of (w_ids (run_world ops).1) x = None -> s_rib (run_sworld ops).1 !! (f, p, x) = None.
+Proof. intros Hd Hlen Hx. destruct (run_inv ops Hd Hlen) as [_ B]. apply (rk_none _ _ _ B), Hx. Qed.
+
+(* and an id nobody was given has no route in the pipeline's RIB *)
+Theorem pipe_no_owner_no_route ops f p i :
+  disciplined ops = true -> N.of_nat (length ops) < two32 - 2 ->
+  (forall x, id_of (w_ids (run_world ops).1) x <> Some i) ->
+  rib_lookup (w_rib (run_world ops).1) (f, p, i) = None.
+Proof.
+  intros Hd Hlen Hno. destruct (run_inv ops Hd Hlen) as [_ B].
+  rewrite world_rib_is_run, rib_lookup_spec.
+  destruct (spec_lookup (evs_of (world_updates ops)) (f, p, i)) as [[s a]|] eqn:E; [exfalso|reflexivity].
+  destruct (rk_L _ _ _ B f p i) as [x Hx]; [congruence|]. apply (Hno x Hx).
+Qed.
+
+(* COROLLARY: the code's RIB shows for every wire identity exactly the property's answer,
+   except that once a session-wide withdrawal hit (family, id) the entry stays withdrawn
+   (class K3 = known finding C03-1). *)
+Theorem pipe_rib_answer_sole ops x i f p :
+  disciplined ops = true -> N.of_nat (length ops) < two32 - 2 -> f < 4 ->
+  id_of (w_ids (run_world ops).1) x = Some i -> sole (w_ids (run_world ops).1) x i ->
+  rib_lookup (w_rib (run_world ops).1) (f, p, i) =
+  match s_rib (run_sworld ops).1 !! (f, p, x) with
+  | Some (s, a) => Some (s && negb (downed (evs_of (world_updates ops)) (f, p, i)), a)
+  | None => None
+  end.
+Proof.
+  intros Hd Hlen Hf Hx Hs. rewrite (pipe_refines_ideal_sole ops x i f p Hd Hlen Hf Hx Hs), world_rib_is_run.
+  apply rib_lookup_spec.
+Qed.
+
+Theorem pipe_rib_answer ops x i f p :
+  disciplined ops = true -> N.of_nat (length ops) < two32 - 2 -> f < 4 ->
+  NoShare (w_ids (run_world ops).1) ->
+  id_of (w_ids (run_world ops).1) x = Some i ->
+  rib_lookup (w_rib (run_world ops).1) (f, p, i) =
+  match s_rib (run_sworld ops).1 !! (f, p, x) with
+  | Some (s, a) => Some (s && negb (downed (evs_of (world_updates ops)) (f, p, i)), a)
+  | None => None
+  end.
+Proof. intros Hd Hlen Hf HN Hx. apply pipe_rib_answer_sole; try assumption. apply NoShare_sole; assumption. Qed.
+
+(* where no session-wide withdrawal ever hit (family, id) the two RIBs agree outright *)
+Corollary pipe_rib_exact ops x i f p :
+  disciplined ops = true -> N.of_nat (length ops) < two32 - 2 -> f < 4 ->
+  NoShare (w_ids (run_world ops).1) ->
+  id_of (w_ids (run_world ops).1) x = Some i ->
+  downed (evs_of (world_updates ops)) (f, p, i) = false ->
+  rib_lookup (w_rib (run_world ops).1) (f, p, i) = s_rib (run_sworld ops).1 !! (f, p, x).
+Proof.
+  intros Hd Hlen Hf HN Hx Hdn. rewrite (pipe_rib_answer ops x i f p Hd Hlen Hf HN Hx), Hdn.
+  destruct (s_rib (run_sworld ops).1 !! (f, p, x)) as [[s a]|]; [rewrite andb_true_r|]; reflexivity.
+Qed.
